@@ -264,3 +264,6 @@ impl<U: Compound, T: Send + Sync + 'static> Compound for OnceInitCell<Option<U>,
 /// Like `drop` but cold to keep this out of the happy path
 #[cold]
 fn drop_cold<T>(_x: T) {}
+
+#[cfg(kani)]
+include!(concat!(env!("ASSETS_MANAGER_VERIF"), "/incrate/utils_cell.rs"));
